@@ -17,7 +17,20 @@ def inline_awaits(c: Ctx, u: Unit, branch: ast.If) -> list[ast.Await]:
 
 def is_sleep0(a: ast.Await) -> bool:
     v = a.value
-    return isinstance(v, ast.Call) and U(v.func) in ('asyncio.sleep', 'sleep') and len(v.args) == 1 and isinstance(v.args[0], ast.Constant) and v.args[0].value == 0
+    if isinstance(v, ast.Call) and U(v.func) in ('asyncio.sleep', 'sleep') and len(v.args) == 1 and isinstance(v.args[0], ast.Constant) and v.args[0].value == 0:
+        return True
+    return is_bounded_pause(a)
+
+
+def is_bounded_pause(a: ast.Await) -> bool:
+    """`await asyncio.wait_for(<awaitable>, timeout=<small numeric constant>)`: whatever is waited for, the caller continues after at most that long (a pause with an early
+    wake-up, like sleep(t)); not a wait that can deadlock."""
+    v = a.value
+    if isinstance(v, ast.Call) and U(v.func) in ('asyncio.wait_for', 'wait_for'):
+        to = q.kw(v, 'timeout') or (v.args[1] if len(v.args) > 1 else None)
+        return isinstance(to, ast.Constant) and isinstance(to.value, (int, float)) and not isinstance(to.value, bool) and 0 <= to.value <= 1 \
+            and v.args and not (isinstance(v.args[0], (ast.Name, ast.Attribute)))  # (wait_for on a task object waits for its cancellation to finish: not bounded)
+    return False
 
 
 @ob('C04.1', 'EFFECT', 'on the in-handler (inline) branch of `await event` the only awaits are process_event(...) and asyncio.sleep(0); waiting on the completion signal, '
@@ -155,7 +168,7 @@ def c04_4(c: Ctx) -> None:
     else:
         c.fail(u, f'bus loop iterates {iter_text(loop)[:60]}', 'the in-handler await drains only a subset of the buses', node=loop)
     head = g.nodes_of(loop, ('for',))[0]
-    attempts = [n for n in g.live_nodes() if n.kind == 'if' and f'{bus}.event_queue.qsize()' in U(n.ast.test)] or [n for n in g.live_nodes() if q.node_calls(n, 'get_nowait')]
+    attempts = [n for n in g.live_nodes() if n.kind in ('if', 'while') and f'{bus}.event_queue.qsize()' in U(n.ast.test)] or [n for n in g.live_nodes() if q.node_calls(n, 'get_nowait')]  # (looking at the queue's size is the attempt)
     c.floor(len(attempts), 1, 'dequeue attempt in the bus loop')
     aid = {n.id for n in attempts}
     allowed = {f'not {bus}', f'not {bus}.event_queue', f'not {bus}._is_running', f'{bus} is None', f'{bus}.event_queue is None'}
@@ -203,6 +216,7 @@ def check_blocking_wait_unreachable_with_lock(c: Ctx) -> None:
     waits = [n for n in g.live_nodes() if n.kind in ('stmt', 'return') and any(isinstance(x, ast.Await) and isinstance(x.value, ast.Call) and call_name(x.value) in ('wait', 'wait_for', 'join', 'acquire')
                                                                             and 'sleep' not in U(x.value) for h in q.node_exprs(n) for x in ast.walk(h))]
     waits = [n for n in waits if not any(call_name(x) == 'process_event' for x in q.node_calls(n))]
+    waits = [n for n in waits if not all(is_bounded_pause(x) for h in q.node_exprs(n) for x in ast.walk(h) if isinstance(x, ast.Await))]  # a bounded pause is not a blocking wait
     c.floor(len(waits), 1, 'blocking waits in the await coroutine')
     atoms = {'inside_handler_context.get()', 'holds_global_lock.get()', sig}
     tests = {U(n.test) for n in own_nodes(u.node) if isinstance(n, (ast.If, ast.While))}
